@@ -85,6 +85,61 @@ REJECTED = [
 ]
 
 
+# ---- rejected shapes, generated: a filter on a column that is neither the order column nor a partition column, for column names DERIVED
+# from the allowed names (parts of them, of their list written out, longer names containing them, one character changed), in every position a
+# condition can take, for two catalogs (short names ts / g, and long names pickup_hour / vendor_id, region)
+REJ_CATALOGS = [('ts', ['g']), ('pickup_hour', ['vendor_id', 'region'])]
+
+
+def derived_other_names(order_col, group_cols):
+    import re as _re
+    allowed = [order_col] + list(group_cols)
+    texts = allowed + [', '.join(allowed), repr(allowed), ','.join(allowed)]
+    names = set()
+    for t in texts:
+        for i in range(len(t)):
+            for j in range(i + 1, len(t) + 1):
+                w = t[i:j]
+                if _re.fullmatch(r'[a-z_][a-z_0-9]*', w) and (len(w) >= 2 or len(t) <= 3):
+                    names.add(w)
+    for a in allowed:
+        names.update({a + '2', 'x' + a, a + '_id', a[:-1] + ('x' if a[-1] != 'x' else 'y'), a[1:] or 'q', a + a})
+    names.update({'v', 'id', 'value'})
+    from mindsdb_sql.parser.dialects.mindsdb.lexer import MindsDBLexer
+
+    def is_plain_name(n):
+        try:
+            toks = list(MindsDBLexer().tokenize(n))
+        except Exception:  # noqa
+            return False
+        return len(toks) == 1 and toks[0].type == 'ID'
+    names = sorted(n for n in names if n.lower() not in [a.lower() for a in allowed] and is_plain_name(n) and is_plain_name(n.upper()))
+    # keep the family small: every name of <= 3 characters, and a spread of the longer ones
+    short = [n for n in names if len(n) <= 3]
+    longer = [n for n in names if len(n) > 3]
+    return short[:12] + longer[::max(1, len(longer) // 14)]
+
+
+REJ_SHAPES = ['t.{o} > 1 AND t.{c} = 3', 't.{c} = 3 AND t.{o} > 1', 't.{o} > 1 AND t.{g} = 1 AND t.{c} > 5', 't.{o} > 1 AND t.{c} IN (1, 2)', 't.{o} > 1 AND t.{C} BETWEEN 1 AND 2',
+              't.{o} > LATEST AND t.{c} = 3', 't.{o} > 1 AND (t.{g} = 1 AND t.{c} = 7)', 't.{c} = 3']
+
+
+def rejected_generated():
+    out = []
+    for o, gs in REJ_CATALOGS:
+        for c in derived_other_names(o, gs):
+            for sh in REJ_SHAPES:
+                out.append(((o, gs), 'SELECT * FROM int1.tbl AS t JOIN mindsdb.tspred AS m WHERE ' + sh.format(o=o, g=gs[0], c=c, C=c.upper()), c))
+    return out
+
+
+def rej_catalog(o, gs):
+    kw = PL.catalog()
+    kw['predictor_metadata'] = [{'name': 'tspred', 'integration_name': 'mindsdb', 'timeseries': True, 'window': W_MARK, 'horizon': 2,
+                                 'order_by_column': o, 'group_by_columns': list(gs)}]
+    return kw
+
+
 # ---- plan interpreter (the step kinds the time-series planner emits for the model input) --------------------------
 
 def interpret(step, plan, ev_factory, bindings=None):
